@@ -112,7 +112,8 @@ async fn scenario(w: World, case_seed: u64, n_inject: usize, disabled: Vec<usize
     for k in 0..n_inject {
         let class = *rng.pick(&enabled);
         let dst = if rng.chance(0.8) { 0 } else { 1 };
-        let bytes = hostilegen::build(&mut rng, &cap, class, dst);
+        let mut grams = hostilegen::build_seq(&mut rng, &cap, class, dst);
+        let bytes = grams.pop().unwrap_or_default();
         let len = bytes.len();
         if let Some(o) = &only_idx {
             // (debugging aid: inject only the listed datagram indices; the others are generated
@@ -124,7 +125,11 @@ async fn scenario(w: World, case_seed: u64, n_inject: usize, disabled: Vec<usize
         let _ = std::fs::write(&progress, format!("{case} {k} {class} {}", vcore::hex(&bytes[..len.min(4096)])));
         out.last = (k, class, vcore::hex(&bytes[..len.min(4096)]));
         sim.take_alloc_window();
-        w.net.inject(dst, bytes, 0);
+        // multi-datagram classes: the leading datagrams go in back to back, the last one is the announced one
+        for (i, g) in grams.into_iter().enumerate() {
+            w.net.inject(dst, g, i as i64 * 1000);
+        }
+        w.net.inject(dst, bytes, 100 * US);
         sim.sleep(2 * MS).await;
         let a = sim.take_alloc_window();
         out.injected.push((class, len, dst));
